@@ -531,7 +531,7 @@ func c06(c *wk.Ctx) {
 		} else {
 			wl = nil
 		}
-		dbl := [][]string{nil, {"1"}, {"0", "15"}, {"10"}}[rng.Intn(4)]
+		dbl := [][]string{nil, {"1"}, {"0", "15"}, {"10"}, {"300"}, {"256", "1"}, {"1024", "65536"}}[rng.Intn(7)]
 		var dbb, dbw []string
 		if rng.Bool() {
 			dbb = dbl
@@ -543,7 +543,7 @@ func c06(c *wk.Ctx) {
 		conf.Options = conf.Configuration{FilterKeyBlacklist: bl, FilterKeyWhitelist: wl, FilterDBBlacklist: dbb, FilterDBWhitelist: dbw, FilterSlot: slots, FilterLua: lua}
 		ref := &reffilter.Config{KeyBlack: bl, KeyWhite: wl, DBBlack: dbb, DBWhite: dbw, Slots: slots, Lua: lua}
 		key := mkKey()
-		db := rng.Pick(0, 1, 10, 15, 100, 5)
+		db := rng.Pick(0, 1, 10, 15, 100, 5, 255, 256, 300, 1024, 65535, 65536, 1<<31-1)
 		cmd := caseMix(rng, rng.PickS("eval", "evalsha", "script", "opinfo", "set", "evals", "scripts", "publish", "opinfox"))
 		slotN := refcrc.Slot([]byte(key))
 		if rng.Chance(1, 4) {
